@@ -776,6 +776,97 @@ def run(ctx: Ctx):
         leaf_case("dergstrip", rl(1.25) + " ", s, float(og._dergstrip(1.25, np.array([s]))[0]), strip_tactic(s, "d"), rule="_dergstrip", n=0, k=0, what="leaf", args=f"1.25, {s!r}")
 
     mark('trefethen')
+    # ================================================================== large-n pass (implementation only, always run)
+    # shape at sizes far beyond the tie, and weight = base weight * phi'(node) / step * phi'(t_k) at the outermost nodes on
+    # each side and a few interior ones (an end-point special case that swallows interior nodes only shows up for n >~ 700)
+    def probe_idx(n):
+        return sorted({0, 1, 2, 3, n - 4, n - 3, n - 2, n - 1, n // 3, n // 2} & set(range(n)))
+
+    big = [700, 1000, 2000, 5000]
+    for cname, cls, odd in [(c, k, o) for c, k, o, _ in plain_specs]:
+        for n in big:
+            n1 = n + 1 if odd else n
+            if cname == "RectangleRuleSineEndPoints" and n > 2000:
+                continue
+            g = build(cls, n1)
+            if g is not None:
+                check_shape(cname, str(n1), g, n1)
+    for cname, cls, nn in (("GaussLegendre", og.GaussLegendre, 700), ("GaussChebyshevType2", og.GaussChebyshevType2, 5000)):
+        g = build(cls, nn)
+        if g is not None:
+            check_shape(cname, str(nn), g, nn)
+    for cname in SUBST:
+        cls = getattr(og, cname)
+        for n in big:
+            n1, mhalf = n + 1, n // 2
+            h = float(Fraction(5, 2 * mhalf))
+            g = build(cls, n1, h)
+            args = f"{n1}, {h!r}"
+            if g is None or not check_shape(cname, args, g, n1):
+                continue
+            for k in probe_idx(n1):
+                t = m.mpf(k - mhalf) * m.mpf(h)
+                x_ref, w_ref = maps[cname](t), m.mpf(h) * m.diff(maps[cname], t)
+                ctx.case(("large", cname, n1, k))
+                if abs(m.mpf(float(g.points[k])) - x_ref) > 1e-11 * (1 + abs(x_ref)) or abs(m.mpf(float(g.weights[k])) - w_ref) > 1e-7 * abs(w_ref):
+                    rep.add(n1, f"subst_{cname}", f"{cname}({args}):large:{k}", [float(g.points[k]), float(g.weights[k])],
+                            f"{cname}({args}): node/weight {k} = {g.points[k]!r}, {g.weights[k]!r}; node map and step * derivative give {float(x_ref)!r}, {float(w_ref)!r}",
+                            {"rule": cname, "args": args, "k": k, "expected": [float(x_ref), float(w_ref)], "kind": "subst-large"})
+    big_bases = [("ClenshawCurtis", og.ClenshawCurtis), ("GaussChebyshevType2", og.GaussChebyshevType2), ("MidPoint", og.MidPoint)]
+    base_cache = {}
+    for n in big:
+        for bname, bcls in big_bases:
+            base_cache[(bname, n)] = build(bcls, n)
+    for n in big:
+        for d in (5, 9):
+            coefs = asin_taylor_map(d)
+            for (tname, tcls), (bname, bcls) in zip((("TrefethenCC", og.TrefethenCC), ("TrefethenGC2", og.TrefethenGC2), ("TrefethenGeneral", og.TrefethenGeneral)), big_bases):
+                if (n, d) not in ((700, 5), (1000, 9), (2000, 5), (5000, 9)):
+                    continue
+                b = base_cache[(bname, n)]
+                g = build(tcls, n, d) if tname != "TrefethenGeneral" else build(tcls, n, bcls, d)
+                args = f"{n}, d={d}" + (f", {bname}" if tname == "TrefethenGeneral" else "")
+                if g is None or b is None or not check_shape(tname, args, g, n):
+                    continue
+                for k in probe_idx(n):
+                    xb = Fraction(float(b.points[k]))
+                    px = sum(c * xb ** (2 * j + 1) for j, c in enumerate(coefs))
+                    wexp = sum(c * (2 * j + 1) * xb ** (2 * j) for j, c in enumerate(coefs)) * Fraction(float(b.weights[k]))
+                    ctx.case(("large", tname, n, d, k))
+                    if abs(Fraction(float(g.points[k])) - px) > Fraction(1, 10 ** 12) or abs(Fraction(float(g.weights[k])) - wexp) > Fraction(1, 10 ** 7) * abs(wexp):
+                        rep.add(n, "subst_trefethen_poly", f"{tname}({args}):large:{k}", [float(g.points[k]), float(g.weights[k])],
+                                f"{tname}({args}): node/weight {k} = {g.points[k]!r}, {g.weights[k]!r}; arcsin-Taylor map of degree {d} gives {float(px)!r}, {float(wexp)!r}",
+                                {"rule": tname, "args": args, "k": k, "expected": [float(px), float(wexp)], "kind": "trefethen-large"})
+        for rho in (1.02, 1.1, 1.4):
+            gm = gstrip_mp(m.mpf(rho))
+            for (tname, tcls), (bname, bcls) in zip((("TrefethenStripCC", og.TrefethenStripCC), ("TrefethenStripGC2", og.TrefethenStripGC2), ("TrefethenStripGeneral", og.TrefethenStripGeneral)), big_bases):
+                b = base_cache[(bname, n)]
+                g = build(tcls, n, rho) if tname != "TrefethenStripGeneral" else build(tcls, n, bcls, rho)
+                args = f"{n}, rho={rho!r}" + (f", {bname}" if tname == "TrefethenStripGeneral" else "")
+                if g is None or b is None or not check_shape(tname, args, g, n):
+                    continue
+                for k in probe_idx(n):
+                    sf = float(b.points[k])
+                    sm = m.mpf(sf)
+                    if abs(sf) == 1.0:   # true end point: one-sided limit of the derivative
+                        m.mp.dps = 100
+                        eps = m.mpf(10) ** -40
+                        d_ref = (gm(sm) - gm(sm - m.sign(sm) * eps)) / (m.sign(sm) * eps)
+                        m.mp.dps = 50
+                        tolw = 1e-6
+                    else:
+                        d_ref = m.diff(gm, sm, h=m.mpf(10) ** -20 * (1 - abs(sm)))
+                        tolw = 1e-7
+                    x_ref, w_ref = gm(sm), d_ref * m.mpf(float(b.weights[k]))
+                    ctx.case(("large", tname, n, rho, k))
+                    if abs(m.mpf(float(g.points[k])) - x_ref) > 1e-10 or abs(m.mpf(float(g.weights[k])) - w_ref) > tolw * abs(w_ref):
+                        rep.add(n, "subst_trefethen_strip", f"{tname}({args}):large:{k}", [float(g.points[k]), float(g.weights[k])],
+                                f"{tname}({args}): node {k} (base node {sf!r}): node/weight = {g.points[k]!r}, {g.weights[k]!r}; base weight * derivative of the strip map = {float(w_ref)!r} "
+                                f"(relative error {float(abs(m.mpf(float(g.weights[k])) - w_ref) / abs(w_ref)):.3g})",
+                                {"rule": tname, "args": args, "k": k, "expected": [float(x_ref), float(w_ref)], "kind": "strip-large",
+                                 "reproduce": f"g={tname}({args.replace('rho=', '')}); g.weights[{k}]"})
+    base_cache.clear()
+    mark('large_n')
     # ================================================================== model vs implementation inside Coq
     # two groups (cases that need the literal library arrays carry the big header), interleaved shards, and a second
     # pass over the failures in small shards so that a shard that timed out on a loaded machine is not a disagreement
